@@ -76,11 +76,19 @@ CLAIMED = {
    technique='Lean 4 theorems over the grouping and accessor models + oracle over real object graphs + differential correspondence',
    design='§7 C03'),
  'C09': dict(
-   text='Proved so far for the real model of _group_matching: leaves kept exactly for any class/list (balanced or not) and no group empty (opener strictly before closer). The refinement to the textbook '
-        'frame-stack matcher is proved for the simplified loop (proto/Match.lean) and is being ported (SqlProofs/MatchSpec.lean). Oracle: spans of the six classes vs an independent stack matcher over the flattened leaves on biased unbalanced inputs.',
-   note='Partial: pairing itself is currently established by the oracle + S-TREE; end-to-end (later passes keep these groups) is oracle only.',
-   technique='Lean 4 invariant proofs over the matching loop + independent reference matcher as oracle + differential correspondence',
+   text='Theorems matching_loop_is_stack_matcher / group_matching_is_recursive_matcher: the real loop of _group_matching (snapshot iteration, tidx = idx - offset, group_tokens slicing, recursion into groups of other classes) '
+        'computes exactly the textbook frame-stack matcher, for every class/pattern/token list, balanced or not, and never raises (only recursion depth can fail); created groups have >= 2 children, start with their opener and end with their closer; '
+        'leaves kept; no group empty after all passes. M_OPEN/M_CLOSE regenerated from the source. Oracle: spans of the six classes vs an independent stack matcher on biased unbalanced inputs; S-TREE.',
+   note='End-to-end clause (later passes keep these groups, only trailing comments appended) is oracle + S-TREE, not a theorem.',
+   technique='Lean 4 refinement proof (loop invariant relating index arithmetic to a frame stack) + independent reference matcher as oracle + differential correspondence',
    design='§7 C09'),
+ 'C07': dict(
+   text='Theorems: validate_total (for every option dictionary over None/bool/int/str/float incl. inf,nan/list, validate_options returns or raises SQLParseError, never anything else) over the option table regenerated from formatter.py '
+        '(decide obligation: every int stanza catches ValueError, TypeError, OverflowError); validate_before_format; accessor totality facts (get_cases total, name accessors total on parse trees, exact raise conditions of get_parameters/get_window/Comparison.left). '
+        'Oracle: option pool x probe/random texts; parse/split/format with random valid option sets on junk and grammar inputs; every accessor on every node.',
+   note='Partial: absence of IndexError/... inside grouping passes and statement filters is explored (the models reproduce the exceptions the real filters raise on odd trees), not proved. Three genuine defects repaired (618d66d, 80aaf5c, 0de99dc).',
+   technique='Lean 4 theorem over an interpreter of the regenerated option table + accessor totality theorems + exploration of exceptions on the real code',
+   design='§7 C07'),
  'C11': dict(
    text='Oracle-centred: each grammar script is re-spelled (every inter-token whitespace run and every inner whitespace of multi-word keywords replaced, keywords re-cased) and statement count, get_type and tree shape compared; '
         'S-LEX/S-SPLIT/S-TREE on both spellings tie the model. Theorems available: split_value_irrelevant (C05) and the kwNorm normalisation facts; the per-pass simulation theorems are not proved.',
